@@ -106,7 +106,41 @@ def build_query(rnd, endpoint):
         q['from_angle_type'] = ft
     if tt is not None:
         q['to_angle_type'] = tt
+    if rnd.random() < 0.3:
+        # the same named parameters sent in another order (sorted, reversed, point 2 first, shuffled): a query string is a
+        # set of named values, not a sequence
+        keys = list(q)
+        how = rnd.choice(['sorted', 'reversed', 'shuffled', 'types-first'])
+        if how == 'sorted':
+            keys.sort()
+        elif how == 'reversed':
+            keys.reverse()
+        elif how == 'shuffled':
+            rnd.shuffle(keys)
+        else:
+            keys.sort(key=lambda k: (not k.endswith('angle_type'), k))
+        q = {k: q[k] for k in keys}
     return q
+
+
+def spell(v):
+    """The text of a number in a query string: mostly repr(); for a share of the values another spelling of the same float
+    (leading plus sign, exponent form, a trailing zero)."""
+    if not isinstance(v, float):
+        return v
+    t = repr(v)
+    pick = int(core.stable_hash(t), 16) % 10
+    alt = t
+    if pick == 0 and v >= 0:
+        alt = '+' + t
+    elif pick == 1:
+        alt = '%.16e' % v
+    elif pick == 2 and '.' in t and 'e' not in t and 'n' not in t:
+        alt = t + '0'
+    try:
+        return alt if float(alt) == v else t
+    except ValueError:
+        return t
 
 
 def judge_request(ns, ctx, tr, client, endpoint, q):
@@ -140,7 +174,14 @@ def judge_request(ns, ctx, tr, client, endpoint, q):
             ctx.count('out_of_domain')
             return
     tr.reset()
-    resp = client.get('/' + endpoint, query_string={k: (repr(v) if isinstance(v, float) else v) for k, v in q.items()})
+    canonical = (['lat1', 'lon1', 'lat2', 'lon2'] if endpoint == 'vincinv' else ['lat1', 'lon1', 'azimuth1to2', 'ell_dist']) + \
+        ['from_angle_type', 'to_angle_type']
+    if [k for k in q] != [k for k in canonical if k in q]:
+        ctx.count('parameters_sent_in_another_order')
+    sent = {k: spell(v) for k, v in q.items()}
+    if any(isinstance(v, float) and sent[k] != repr(v) for k, v in q.items()):
+        ctx.count('numbers_spelled_another_way')
+    resp = client.get('/' + endpoint, query_string=sent)
     ctx.judged()
     ctx.count(endpoint + '_requests')
     ctx.bucket(endpoint, ft if 'from_angle_type' in q else 'absent', tt if 'to_angle_type' in q else 'absent',
